@@ -12,6 +12,14 @@ func corpusEnums() []*modSpec {
 	return []*modSpec{
 		mk("enum-dup-values", "package models\n\ntype Color uint8\n\nconst (\n\tRed Color = 0\n\tGreen Color = 1\n\tBlue Color = 1\n)\n\ntype S struct{ C Color }\n"),
 		mk("enum-dup-and-gap", "package models\n\ntype Level int\n\nconst (\n\tLow Level = 0\n\tDefault Level = 0\n\tHigh Level = 2\n)\n\ntype Mode uint8\n\nconst (\n\tM0 Mode = 0\n\tM1 Mode = 1\n\tM1b Mode = 1\n\tM4 Mode = 4\n\tM4b Mode = 4\n)\n\ntype Gap int\n\nconst (\n\tG0 Gap = 0\n\tG2 Gap = 2\n)\n\ntype S struct {\n\tL Level\n\tM Mode\n\tG Gap\n}\n"),
+		mk("enum-same-package-name", "package models\n\nimport (\n\tv1 \"example.com/org/models/v1/status\"\n\tv2 \"example.com/org/models/v2/status\"\n)\n\ntype S struct {\n\tA v1.Status\n\tB v2.Status\n\tC v2.Level\n}\n",
+			modFile{"v1/status/status.go", "package status\n\ntype Status int\n\nconst (\n\tOn Status = iota // on\n\tOff\n)\n"},
+			modFile{"v2/status/status.go", "package status\n\ntype Status int\n\nconst (\n\tIdle Status = iota\n\tBusy // busy\n\tDown\n)\n\ntype Level string\n\nconst (\n\tLow Level = \"low\"\n\tHigh Level = \"high\"\n)\n"}),
+		mk("enum-constant-in-another-package", "package models\n\nimport (\n\t\"example.com/org/models/defaults\"\n\t\"example.com/org/models/kinds\"\n)\n\nvar _ = defaults.DefaultKind\n\ntype S struct {\n\tK kinds.Kind\n\tL []kinds.Kind\n}\n",
+			modFile{"kinds/kinds.go", "package kinds\n\ntype Kind int\n\nconst (\n\tCircle Kind = iota\n\tSquare\n\tTriangle\n)\n"}, modFile{"defaults/defaults.go", "package defaults\n\nimport \"example.com/org/models/kinds\"\n\nconst DefaultKind = kinds.Square\n\nconst Other kinds.Kind = 7\n"}),
+		mk("enum-constants-only-elsewhere", "package models\n\nimport (\n\t\"example.com/org/models/a\"\n\t\"example.com/org/models/b\"\n\t\"example.com/org/models/kinds\"\n)\n\nvar _ = a.A1\nvar _ = b.B1\n\ntype S struct{ K kinds.Kind }\n",
+			modFile{"kinds/kinds.go", "package kinds\n\ntype Kind int\n"}, modFile{"a/a.go", "package a\n\nimport \"example.com/org/models/kinds\"\n\nconst A1 kinds.Kind = 1\n"},
+			modFile{"b/b.go", "package b\n\nimport \"example.com/org/models/kinds\"\n\nconst B1 kinds.Kind = 2\nconst B2 kinds.Kind = 3\n"}),
 		mk("enum-multi-name", "package models\n\ntype K int\n\nconst KA, KB K = 0, 1\n\ntype S struct{ V K }\n"),
 		mk("enum-unexported-between", "package models\n\ntype E int\n\nconst (\n\tRed E = 0\n\tGreen E = 1\n\tdup E = 0\n)\n\ntype S struct{ V E }\n"),
 		mk("enum-iota-block", "package models\n\ntype E int\n\nconst (\n\tA E = iota // first\n\tB // second\n\tC\n)\n\ntype S struct{ V E }\n"),
@@ -79,6 +87,7 @@ func corpusFields() []*modSpec {
 		mk("tags-dash", "package models\n\ntype T struct {\n\tA int `json:\"-\"`\n\tB int `json:\"-,\"`\n\tC int `gomacro:\"ignore\"`\n\td int\n\tE int `xml:\"e\" json:\"ee\"`\n\tF int `json:\"ff\" xml:\"f\"`\n}\n\ntype Table struct {\n\tId int64\n\tData T\n}\n"),
 		mk("tags-embedded", "package models\n\ntype Base struct {\n\tID int64\n\tName string `json:\"name\"`\n}\n\ntype T struct {\n\tBase\n\tExtra int\n}\n\ntype Table struct {\n\tId int64\n\tData T\n}\n"),
 		mk("tags-embedded-tagged", "package models\n\ntype Inner struct{ A int }\n\ntype T struct {\n\tInner `json:\"inner\"`\n\tB int\n}\n\ntype Table struct {\n\tId int64\n\tData T\n}\n"),
+		mk("tags-embedded-empty-name", "package models\n\ntype Base struct {\n\tID int64\n\tName string `json:\"name\"`\n}\n\ntype Other struct{ Z int }\n\ntype Third struct{ W int }\n\ntype T struct {\n\tBase `json:\",omitempty\"`\n\tOther `json:\"\"`\n\tThird `json:\",\"`\n\tExtra string\n}\n\ntype Table struct {\n\tId int64\n\tData T\n}\n"),
 		mk("tags-embedded-conflict", "package models\n\ntype X struct{ A int; B int }\ntype Y struct{ A int; C int }\n\ntype T struct {\n\tX\n\tY\n}\n\ntype Table struct {\n\tId int64\n\tData T\n}\n"),
 		mk("tags-opaque", "package models\n\ntype R struct{ Children []R }\n\ntype T struct {\n\tF1 R `gomacro-opaque:\"dart\"`\n\tF2 R `gomacro-opaque:\"dart, typescript\"`\n\tF3 R `gomacro-opaque:\" typescript\"`\n\tF4 int `json:\"f4\" gomacro-opaque:\"typescript\"`\n}\n\ntype Table struct {\n\tId int64\n\tData T\n}\n"),
 		mk("tags-invalid-name", "package models\n\ntype T struct {\n\tA int `json:\"a\\\\b\"`\n\tB int `json:\"ok\"`\n}\n"),
